@@ -25,7 +25,7 @@ np.set_printoptions(legacy="1.25")      # plain float repr in messages
 META = dict(
     level="exploration",
     technique="deviation-bounded exhaustive lattice of Lagrangian parameters against independently written textbook mass matrices (numpy, failures confirmed in 50-digit mpmath)",
-    text="All assignments with at most d (2 quick / 3 thorough) simultaneous deviations from a base point over 45 parameter dimensions (tan beta 0.5..200, both signs of mu/M1/M2/M3, soft masses squared of either sign per sector and generation, trilinears, Yukawas, gauge couplings, vev, m_A^2 incl. m_A<m_Z, m_A~m_Z(1+-1e-7) and negative values) are evaluated; for each, all 17 sectors are reconstructed from the reported masses and mixings and compared with the textbook matrix (1e-10 ||M||), unitarity (1e-12), ordering, Goldstone position/mass, Higgs sum rules, chargino/neutralino trace and determinant relations, tachyon list == monitored sectors with a negative reference eigenvalue, and bitwise generation exchange. Says nothing about parameter values off the lattice or more than d simultaneous deviations.",
+    text="All assignments with at most d (2 quick / 3 thorough) simultaneous deviations from a base point over 45 parameter dimensions (tan beta 0.5..200, both signs of mu/M1/M2/M3, soft masses squared of either sign per sector and generation, trilinears, Yukawas, gauge couplings, vev, m_A^2 incl. m_A<m_Z, m_A~m_Z(1+-1e-7) and negative values) are evaluated; for each, all 17 sectors are reconstructed from the reported masses and mixings and compared with the textbook matrix (1e-10 ||M||), unitarity (1e-12), ordering, Goldstone position/mass, Higgs sum rules, chargino/neutralino trace and determinant relations, tachyon list == monitored sectors with a negative reference eigenvalue, and bitwise generation exchange. In addition the two public spectrum entry points of MSSMNoFV_onshell are driven with force_output: calculate_masses() on GM2Calc-type points and convert_to_onshell() on SLHA-type points (pole masses of a GM2Calc-type point + DR-bar parameters), 4 base points x all assignments with <= d deviations over tan beta, negative/zero/small/huge soft masses of monitored and unmonitored sectors, large trilinears, large or negative mu, negative M1/M2 and - for the conversion - small, zero, negative or far-off INITIAL values of the entries it overwrites (ml2(1,1), me2(1,1), mu, M1, M2); each case is run on a fresh object, a second fresh object and on the re-used first object. After every call the whole oracle above is applied to the final DR-bar spectrum against the matrices rebuilt from the FINAL Lagrangian parameters (getters after the call), in particular reported tachyons == monitored sectors with a negative squared mass; two fresh runs must be bitwise identical, and the re-used object must give the same report whenever it reached the same solution without a convergence warning. Says nothing about parameter values off the lattice or more than d simultaneous deviations.",
     note="trusted: numpy eigvalsh / mpmath eigsy, the textbook formulas in oracle/mssm_tree.py (validated against the unchanged tree: agreement <= 1e-15 ||M|| on every lattice point)",
     design_ref="3/C04")
 
@@ -537,7 +537,7 @@ def _entry_worker(job):
         for i, c in zip(ok, cls):
             keys.add((tagname[job[i // 3][1]],) + tuple(c))
         st["entry_points_with_tachyon_report"] = sum(1 for c in cls if c[0])
-    nwarn = 0
+    nwarn = ndiffsol = 0
     # the same input must give the same report: twice on fresh objects (and identical numbers), and on a re-used object
     for c in range(len(job)):
         a, b, r = 3 * c, 3 * c + 1, 3 * c + 2
@@ -549,11 +549,19 @@ def _entry_worker(job):
         nwarn += warned
         # a convergence warning means the final parameters are not determined by the input (the iteration stopped
         # somewhere that depends on where it started, incl. left-over Yukawas of the previous evaluation)
-        if probs[a] != probs[r] and not warned:
+        # the report is a function of the FINAL parameters (checked on every run by the tachyon clause above).  The
+        # conversion has several solutions (e.g. mu <-> M2 exchanged); a fresh object starts its iteration from
+        # g1 = g2 = y = 0, a re-used one from the previous couplings, so with a far-off initial guess the two can
+        # end on different solutions.  Equality of the reports is required when the same solution was reached.
+        pa, pr = vals[a, :45], vals[r, :45]
+        same_solution = bool(np.all(np.abs(pa - pr) <= 1e-6 * np.maximum(np.abs(pa), np.abs(pr)) + 1e-9))
+        ndiffsol += (not warned) and (not same_solution)
+        if probs[a] != probs[r] and not warned and same_solution:
             fails.append((job[c], "entry:%s:report-differs-on-reused-object" % tn,
                           "fresh object reports %r, the same input on the re-used object reports %r" % (probs[a], probs[r])))
     st = {k: v for k, v in st.items() if not isinstance(v, float)}
     st["entry_cases_with_convergence_warning(reused-report not required)"] = nwarn
+    st["entry_cases_where_reused_object_converged_to_a_different_solution(no warning)"] = ndiffsol
     return fails, st, sorted(keys), len(job), sum(1 for i in ok)
 
 
@@ -632,7 +640,7 @@ def run(ctx):
                 stopped = True
                 pool.terminate()
                 break
-    run_entry(ctx, 2 if ctx.quick else 3 if False else 2)
+    run_entry(ctx, 2 if ctx.quick else 3)
     if not stopped and n != total:
         raise RuntimeError("enumerated %d points, lattice formula says %d" % (n, total))
     for k in sorted(keys):
@@ -656,6 +664,19 @@ def run(ctx):
 def replay(ctx, path):
     import json
     d = json.load(open(path))
+    if "entry" in d["data"]:
+        e = d["data"]["entry"]
+        dev = tuple((nm, tuple(v) if isinstance(v, list) else v) for nm, v in e["dev"])
+        mssmrun.exe("plain")
+        fails = _entry_worker([(e["base"], e["mode"], dev)])[0]
+        hit = [f for f in fails if f[1] == d["key"]] or fails
+        for _, key, what in hit[:8]:
+            print("replay: [%s] %s" % (key, what))
+        if hit:
+            print("VIOLATION property=C04 replay=%s" % path)
+            return 1
+        print("replay: holds now (entry-point oracles pass on the stored case)")
+        return 0
     pd = d["data"]["params"]
     p = {k: ([unhex(x) for x in v] if isinstance(v, list) else unhex(v)) for k, v in pd.items()}
     mssmrun.exe("plain")
